@@ -18,6 +18,9 @@ CUTS = {
     "one_row": lambda k, n, L: n,
     "minus_one": lambda k, n, L: L - 1,
     "row_plus_one": lambda k, n, L: n + 1,
+    # the response does not even hold one repetition (many roots / large values): cut inside the first row, alternating with full answers
+    "partial_first": lambda k, n, L: max(1, n - 1) if k % 2 else L,
+    "partial_first_always": lambda k, n, L: max(1, (n + 1) // 2),
 }
 
 
@@ -56,6 +59,7 @@ def build_agent(sc, events, proto):
         ag = make_agent({conc(o): enc_int(token(o)) for o in sc["db"]}, proto)
     cut = sc.get("cut", "full")
     ag.cut = CUTS[cut] if cut in CUTS else seeded_cut(int(cut.split(":")[1]))
+    ag.partial_first = cut.startswith("partial_first")
     ag.budget = sc.get("budget", 400)
 
     def on_request(req):
